@@ -92,6 +92,8 @@ func (e *SpecEnv) typeByName(n string) types.Type {
 	switch n {
 	case "text":
 		return textType
+	case "bytes": // a mathematical byte array (index -> byte)
+		return types.NewArray(types.Typ[types.Uint8], 1<<40)
 	case "ByteSlice":
 		return types.NewSlice(types.Typ[types.Uint8])
 	case "interface{}", "any":
@@ -182,6 +184,38 @@ func (e *SpecEnv) localVar(name string) (Val, bool) {
 		}
 	}
 	return Val{}, false
+}
+
+// arrText: the text of n bytes at index off of a byte array term.
+func (e *SpecEnv) arrText(arr, off, n string) Val {
+	c := e.c
+	c.sortOf(textType)
+	c.declStrEq()
+	c.decl("fn:txt", "(declare-fun txt (Str) Txt)")
+	c.decl("ax:txt", "(assert (forall ((a!t Str) (b!t Str)) (! (= (streq a!t b!t) (= (txt a!t) (txt b!t))) :pattern ((txt a!t) (txt b!t)))))")
+	return Val{T: textType, S: fmt.Sprintf("(txt (mkstr %s %s %s 0))", arr, off, n)}
+}
+
+// localCellPath: the storage location of a named escaping local (a heap cell).
+func (e *SpecEnv) localCellPath(name string) (*Path, types.Type, bool) {
+	st := e.st
+	if e.loc != nil {
+		st = e.loc
+	}
+	if e.f == nil || st == nil {
+		return nil, nil, false
+	}
+	for i := len(st.order) - 1; i >= 0; i-- {
+		a := st.order[i]
+		if a.Comment == name && a.Parent() == e.f.fn {
+			if r, ok := st.hrefs[a]; ok {
+				et := a.Type().(*types.Pointer).Elem()
+				return &Path{Kind: rootHeap, T: et, Ref: r}, et, true
+			}
+			return nil, nil, false
+		}
+	}
+	return nil, nil, false
 }
 
 func (e *SpecEnv) eval(x SExpr, hint types.Type) Val {
@@ -485,7 +519,7 @@ func (e *SpecEnv) field(n *SField) Val {
 			return Val{T: st.Field(idx).Type(), S: c.load(e.st, &q)}
 		}
 		// pointer to a heap struct: read the field's own heap directly
-		if pt, ok := v.T.Underlying().(*types.Pointer); ok && e.st != nil {
+		if pt, ok := v.T.Underlying().(*types.Pointer); ok && e.st != nil && !isGoSliceLike(pt.Elem()) && !isGoStringLike(pt.Elem()) {
 			if st, ok := pt.Elem().Underlying().(*types.Struct); ok {
 				if idx := fieldIndex(st, n.Name); idx >= 0 {
 					p := &Path{Kind: rootHeap, T: pt.Elem(), Ref: v.S, Steps: []Step{{Field: idx}}}
@@ -501,6 +535,17 @@ func (e *SpecEnv) field(n *SField) Val {
 			}
 		}
 		v = e.deref(v)
+	}
+	if isGoSliceLike(v.T) && v.S != "" {
+		switch n.Name {
+		case "Len":
+			return Val{T: types.Typ[types.Int], S: fmt.Sprintf("(xlen %s)", v.S)}
+		case "Cap":
+			return Val{T: types.Typ[types.Int], S: fmt.Sprintf("(xcap %s)", v.S)}
+		case "Ptr":
+			off := fmt.Sprintf("(xoff %s)", v.S)
+			return Val{T: types.Typ[types.UnsafePointer], P: &Path{Kind: rootArr, T: types.Typ[types.Uint8], Ref: fmt.Sprintf("(sbase %s)", v.S), Steps: []Step{{IsIdx: true, Idx: off, Raw: true}}, Lo: off, Hi: c.idxAdd(off, fmt.Sprintf("(xcap %s)", v.S))}}
+		}
 	}
 	st, ok := v.T.Underlying().(*types.Struct)
 	if !ok {
@@ -547,6 +592,13 @@ func (e *SpecEnv) index(n *SIndex) Val {
 	}
 	if _, isPtr := v.T.Underlying().(*types.Pointer); isPtr {
 		v = e.deref(v)
+	}
+	if isGoSliceLike(v.T) {
+		if e.st == nil {
+			sfail("slice contents in a state-free context: %s", n)
+		}
+		hn, hs := c.heapNameArr(types.Typ[types.Uint8])
+		return Val{T: types.Typ[types.Uint8], S: c.arrAt(c.byteSort(), fmt.Sprintf("(select %s (sbase %s))", c.heap(e.st, hn, hs), v.S), fmt.Sprintf("(xoff %s)", v.S), idx)}
 	}
 	switch u := v.T.Underlying().(type) {
 	case *types.Basic:
@@ -797,6 +849,12 @@ func (e *SpecEnv) call(n *SCall, hint types.Type) Val {
 			v = e.deref(v)
 		}
 		var t string
+		if isGoSliceLike(v.T) {
+			if n.Fn == "len" {
+				return Val{T: I, S: fmt.Sprintf("(xlen %s)", v.S)}
+			}
+			return Val{T: I, S: fmt.Sprintf("(xcap %s)", v.S)}
+		}
 		switch u := v.T.Underlying().(type) {
 		case *types.Basic:
 			if !isString(v.T) {
@@ -840,7 +898,7 @@ func (e *SpecEnv) call(n *SCall, hint types.Type) Val {
 	case "fresh", "alive":
 		v := e.eval(n.Args[0], nil)
 		s := v.S
-		if _, isSlice := v.T.Underlying().(*types.Slice); isSlice {
+		if _, isSlice := v.T.Underlying().(*types.Slice); isSlice || isGoSliceLike(v.T) {
 			s = fmt.Sprintf("(sbase %s)", v.S)
 		}
 		if e.st == nil {
@@ -862,6 +920,79 @@ func (e *SpecEnv) call(n *SCall, hint types.Type) Val {
 			sfail("ptrindex of non raw pointer %s", n.Args[0])
 		}
 		return Val{T: I, S: v.P.Steps[len(v.P.Steps)-1].Idx}
+	case "ptrlo", "ptrhi": // bounds of the memory a raw pointer was derived from (index range [lo, hi))
+		v := e.eval(n.Args[0], nil)
+		if v.P == nil || v.P.Lo == "" || v.P.Hi == "" {
+			sfail("%s: pointer without a known valid range: %s", n.Fn, n.Args[0])
+		}
+		if n.Fn == "ptrlo" {
+			return Val{T: I, S: v.P.Lo}
+		}
+		return Val{T: I, S: v.P.Hi}
+	case "rawtxt", "rawtxtat": // text of n bytes starting at a raw pointer / at absolute index lo of its array
+		v := e.eval(n.Args[0], nil)
+		if v.P == nil || len(v.P.Steps) != 1 || !v.P.Steps[0].IsIdx {
+			sfail("%s: not a raw byte pointer: %s (S=%q P=%v alts=%d)", n.Fn, n.Args[0], v.S, v.P, len(v.Alts))
+		}
+		start := v.P.Steps[0].Idx
+		cntArg := n.Args[1]
+		if n.Fn == "rawtxtat" {
+			lo := e.eval(n.Args[1], I)
+			start = c.toIdx(lo.S, lo.T)
+			cntArg = n.Args[2]
+		}
+		cnt := e.eval(cntArg, I)
+		var arr string
+		switch v.P.Kind {
+		case rootArr:
+			if e.st == nil {
+				sfail("rawtxt in a state-free context")
+			}
+			hn, hs := c.heapNameArr(types.Typ[types.Uint8])
+			arr = fmt.Sprintf("(select %s %s)", c.heap(e.st, hn, hs), v.P.Ref)
+		case rootStrArr:
+			arr = v.P.Ref
+		default:
+			sfail("rawtxt: unsupported pointer root")
+		}
+		return e.arrText(arr, start, c.toIdx(cnt.S, cnt.T))
+	case "arrtxt": // text of n bytes at index o of a mathematical byte array
+		a := e.eval(n.Args[0], nil)
+		o := e.eval(n.Args[1], I)
+		cnt := e.eval(n.Args[2], I)
+		return e.arrText(a.S, c.toIdx(o.S, o.T), c.toIdx(cnt.S, cnt.T))
+	case "subtxt": // text of s[lo : lo+n] for a string or byte slice
+		a := e.eval(n.Args[0], nil)
+		lo := e.eval(n.Args[1], I)
+		cnt := e.eval(n.Args[2], I)
+		if isByteSlice(a.T) || isGoSliceLike(a.T) {
+			if e.st == nil {
+				sfail("subtxt(bytes) in a state-free context")
+			}
+			hn, hs := c.heapNameArr(types.Typ[types.Uint8])
+			return e.arrText(fmt.Sprintf("(select %s (sbase %s))", c.heap(e.st, hn, hs), a.S), c.idxAdd(fmt.Sprintf("(xoff %s)", a.S), c.toIdx(lo.S, lo.T)), c.toIdx(cnt.S, cnt.T))
+		}
+		if !isString(a.T) {
+			sfail("subtxt() takes a string or []byte")
+		}
+		return e.arrText(fmt.Sprintf("(sarr %s)", a.S), c.idxAdd(fmt.Sprintf("(soff %s)", a.S), c.toIdx(lo.S, lo.T)), c.toIdx(cnt.S, cnt.T))
+	case "rawat": // byte at absolute index j of the array a raw pointer points into
+		v := e.eval(n.Args[0], nil)
+		j := e.eval(n.Args[1], I)
+		if v.P == nil || len(v.P.Steps) != 1 {
+			sfail("rawat: not a raw byte pointer")
+		}
+		var arr string
+		switch v.P.Kind {
+		case rootArr:
+			hn, hs := c.heapNameArr(types.Typ[types.Uint8])
+			arr = fmt.Sprintf("(select %s %s)", c.heap(e.st, hn, hs), v.P.Ref)
+		case rootStrArr:
+			arr = v.P.Ref
+		default:
+			sfail("rawat: unsupported pointer root")
+		}
+		return Val{T: types.Typ[types.Uint8], S: fmt.Sprintf("(select %s %s)", arr, c.toIdx(j.S, j.T))}
 	case "ptrbase":
 		v := e.eval(n.Args[0], nil)
 		if v.P == nil || v.P.Kind != rootArr {
@@ -908,7 +1039,7 @@ func (e *SpecEnv) call(n *SCall, hint types.Type) Val {
 		}
 		o := e.sub()
 		o.st = e.pre
-		o.cells = false
+		o.loc = e.pre // locals, too, have their loop-entry values
 		return o.eval(n.Args[0], hint)
 	case "newer": // allocated after the loop was entered (loop invariants only)
 		if e.pre == nil {
@@ -941,7 +1072,7 @@ func (e *SpecEnv) call(n *SCall, hint types.Type) Val {
 		return e.numLit(big.NewInt(c.eng.sizes.Offsetsof(fields)[idx]), hint)
 	case "txt": // the text (content) of a string or byte slice
 		a := e.eval(n.Args[0], nil)
-		if isByteSlice(a.T) {
+		if isByteSlice(a.T) || isGoSliceLike(a.T) {
 			if e.st == nil {
 				sfail("txt(bytes) in a state-free context")
 			}
@@ -1148,6 +1279,18 @@ func (e *SpecEnv) lvalue(x SExpr) lval {
 	c := e.c
 	switch n := x.(type) {
 	case *SCall:
+		if n.Fn == "rawmem" && len(n.Args) == 1 {
+			// the whole array a raw byte pointer points into
+			v := e.eval(n.Args[0], nil)
+			if v.P == nil || v.P.Kind != rootArr {
+				sfail("rawmem: not a raw pointer into a byte array: %s", n.Args[0])
+			}
+			sl := fmt.Sprintf("(mkslice %s %s %s %s)", v.P.Ref, v.P.Lo, c.idxSub(v.P.Hi, v.P.Lo), c.idxSub(v.P.Hi, v.P.Lo))
+			if v.P.Lo == "" || v.P.Hi == "" {
+				sfail("rawmem: pointer without a known valid range")
+			}
+			return lval{whole: true, slice: sl, elemT: v.P.T, path: &Path{Kind: rootArr, T: v.P.T, Ref: v.P.Ref}}
+		}
 		if n.Fn == "heap" && len(n.Args) == 1 {
 			t := e.typeFromExpr(n.Args[0])
 			p := &Path{Kind: rootHeap, T: t, Ref: "0"}
@@ -1240,6 +1383,9 @@ func (e *SpecEnv) lvalue(x SExpr) lval {
 		}
 		// global variable or local cell
 		if e.cells {
+			if p, t, ok := e.localCellPath(n.Name); ok {
+				return lval{path: p, t: t}
+			}
 			if v, ok := e.localVar(n.Name); ok && v.P != nil {
 				return lval{path: v.P, t: c.targetType(v.P)}
 			}
